@@ -231,6 +231,7 @@ def main():
     lib.load_stdnum()
     chk.mc('Runtime', 'MC_Runtime_code2', workers=16, heap='8g', label='dispatch mechanism (alias, membership, cache), 2 threads')
     chk.mc('Runtime', 'MC_Runtime_CacheBeforeMember', workers=8, expect_violation='PureResults', label='hazard: cache before membership test')
+    chk.mc('Runtime', 'MC_Runtime_ImportWindow', workers=8, expect_violation='PureResults', label='hazard: getattr(package, name) alone while another thread is between module body and attribute (code before 772c586)')
     p = {'seed': chk.seed, 'bases': 6 if quick else 60, 'guess_p': 0.05 if quick else 0.3}
     units = [('euvat', pfx, p) for pfx in MEMBERS + OTHER_PREFIXES]
     units += [('union', 'us.tin', ['us.ssn', 'us.itin', 'us.ein', 'us.ptin', 'us.atin'], True, 'guess_type', p),
